@@ -158,7 +158,12 @@ class GITCommands:
         self._do(["mv", self._in_dir(path), self._in_dir(new_location)])
 
     def remove(self, path):
-        self._do(["rm", self._in_dir(path)])
+        # A file that was just created is staged only and a new folder is
+        # not known to git at all: plain `git rm` refuses the one and does
+        # not find the other.
+        self._do(["rm", "-r", "-f", "-q", "--ignore-unmatch", self._in_dir(path)])
+        if os.path.lexists(path):
+            self.normal_actions.remove(path)
 
     def write(self, path, data):
         # XXX: should we use ``git add``?
